@@ -44,8 +44,8 @@ def o12_5_writer_new(mir, tier):
             if m is not None:
                 sz = mval(m, size)
                 res.violations.append({'label': label, 'file_size': sz, 'is_appending': mval(m, appending),
-                                       'replay': ['log_write', str(sz % BLOCK), '10'] if 'continue' in label else None,
-                                       'confirmed_by': None if 'continue' in label else {'reproduced': False, 'detail': 'no native scenario for this label'}})
+                                       'replay': ['log_write', str(sz % BLOCK), '10'] if 'continue' in label else (['log_reopen_len_fault'] if ('fails although' in label and mval(m, create_ok) and not mval(m, len_ok)) else None),
+                                       'confirmed_by': None if ('continue' in label or ('fails although' in label and mval(m, create_ok) and not mval(m, len_ok))) else {'reproduced': False, 'detail': 'no native scenario for this label'}})
         if ok and len(res.witnesses) < 2:
             m = ex.model(And(appending, ULT(size, bv(BLOCK)), UGT(URem(size, bv(BLOCK)), bv(BLOCK - HDR))))
             if m is not None:
@@ -62,4 +62,8 @@ def o12_5_writer_new(mir, tier):
     return res
 
 
-o12_5_confirm = o12_1_confirm
+def o12_5_confirm(v, out):
+    if v['replay'][0] == 'log_reopen_len_fault':
+        if out.get('_rc') != 0: return (False, 'native run failed: %s' % out.get('_stderr', '')[-300:])
+        return (out.get('writer_new') == 'Ok' and out.get('len_failed') == 'true', 'size query failed=%s, LogWriter::new returned %s' % (out.get('len_failed'), out.get('writer_new')))
+    return o12_1_confirm(v, out)
